@@ -493,7 +493,11 @@ func (t *Type) GetAttrOrNil(name string) Object {
 		return res
 	}
 	// Now look through base classes etc
-	return t.Lookup(name)
+	if res := t.Lookup(name); res != nil {
+		return res
+	}
+	// t is an instance: look through the bases of its class
+	return t.Type().Lookup(name)
 }
 
 // Calls method on name
